@@ -107,6 +107,10 @@ class Engine(ExprMixin, CallMixin):
                 st = st.copy()
                 st.ghost[item[1]] = item[2]
                 continue
+            if item[0] == 'axiom':          # defining equation of an uninterpreted spec function (trusted, listed)
+                self.trusted.add('axiom: ' + item[1])
+                st = st.assume(item[2])
+                continue
             name, f = item
             self.pending.append(PendingObl('lemma', 'lemma %s' % name, (), f, ()))
             st = st.assume(f)
